@@ -137,7 +137,7 @@ def check_content(deb, probe, conc, rng, level, drift=None):
         err, found = obs_has(part, path)
         if err or found != eh:
             return "%s.has_file(%r) / in = %s, specification says %s" % (p, path, err or found, eh)
-        variant = rng.randrange(5) if full else rng.randrange(2)
+        variant = rng.randrange(5) if (full or level == "stress") else rng.randrange(2)
         err, data = obs_get(part, path, variant, disturb, rng)
         if err == "DebError" and eg == 0:
             # absent file reported with the package-format error instead of KeyError: accepted
@@ -243,16 +243,25 @@ def random_members(rng):
     return out
 
 
-def random_package(rng):
-    """a concrete random package plus its abstraction (blob ids = identity of the bytes)"""
+def random_package(rng, stress=None):
+    """a concrete random package; its abstraction is derived from it (blob ids = identity of the bytes).
+    stress 1 / 2: the size dimension -- 30 / 100+ files, names around the tar limits, several blobs of
+    8..64 KiB / 128 KiB..1 MiB (mostly incompressible)"""
+    if stress is None:
+        r = rng.random()
+        stress = 2 if r < 0.02 else 1 if r < 0.10 else 0
     scripts = [s for s in B.MAINT_SCRIPTS if rng.random() < 0.45]
-    nfiles = rng.choice([0, 1, 2, 3, 4, 6, 9])
+    nfiles = rng.choice([0, 1, 2, 3, 4, 6, 9] if not stress else [9, 10, 11, 31, 33] if stress == 1 else [99, 100, 101, 130])
     model = ["f%d" % (i + 1) for i in range(nfiles)]
-    names = B.gen_names(rng, set(model) | {"absent"} | set(B.CTRL_NAMES))
+    names = B.gen_names(rng, set(model) | {"absent"} | set(B.CTRL_NAMES), long_names=bool(stress))
     fields = B.gen_fields(rng)
     dblob = {}
+    nbig = 0
     for m in model:
         dblob[m] = B.gen_blob(rng)
+        if stress and nbig < (6 if stress == 1 else 3) and rng.random() < 0.4:
+            dblob[m] = B.gen_big_blob(rng, stress)
+            nbig += 1
         if rng.random() < 0.15 and len(dblob) > 1:      # two files with the same content
             dblob[m] = dblob[rng.choice(model[:len(dblob) - 1])]
     listed = [m for m in model if rng.random() < 0.7]
@@ -264,6 +273,7 @@ def random_package(rng):
     dfiles = [(names[m], dblob[m]) for m in model]
     rng.shuffle(dfiles)
     conc = B.Conc.concrete(names, fields, cfiles, dfiles, md5, "gnu" if rng.random() < 0.8 else "pax")
+    conc.stress = stress
     return conc, model
 
 
@@ -512,12 +522,16 @@ def _work_content(args):
     for i, k, pr, seed, mem, exp in tasks:
         rnd = random.Random(seed)
         qn = sorted(pr["probe"]["has"]["data"]["plain"])
-        conc = B.Conc(rnd, pr["pkg"], qn, canonical=(k == 0 and i % 7 == 0))
+        # size dimension (notes/SIZE_STRESS.md): some contents get big incompressible blobs, 30 / 100+
+        # padding members and names around the tar limits; fewer queries, both opening modes
+        stress = 2 if i % 197 == 13 else 1 if i % 23 == 5 else 0
+        conc = B.Conc(rnd, pr["pkg"], qn, canonical=(k == 0 and i % 7 == 0 and not stress), stress=stress)
         style = "dpkg" if any(len(x) > 15 for x in mem) or rnd.random() < 0.8 else "gnu"
-        how = "filename" if rnd.random() < 0.05 else "fileobj"
-        msg = run_pkg(mem, exp, pr["probe"], conc, style, how, "full", seed, work, drifts.append)
+        how = "filename" if rnd.random() < (0.4 if stress else 0.05) else "fileobj"
+        level = "stress" if stress else "full"
+        msg = run_pkg(mem, exp, pr["probe"], conc, style, how, level, seed, work, drifts.append)
         if msg:
-            fails.append(((i, k), msg, pkg_case(mem, exp, pr["probe"], conc, style, how, "full", seed)))
+            fails.append(((i, k), msg, pkg_case(mem, exp, pr["probe"], conc, style, how, level, seed)))
     return len(tasks), fails, drifts[:20]
 
 
@@ -582,7 +596,8 @@ def _work_hist(args):
     tab, pkgs, prts = H.load_table(lines)
     fails, drifts, nq = [], [], 0
     for sd in seeds:
-        case = H.gen_hist(random.Random(sd), tab, pkgs, prts, nsteps)
+        stress = 2 if sd % 29 == 0 else 1 if sd % 5 == 0 else 0
+        case = H.gen_hist(random.Random(sd), tab, pkgs, prts, nsteps if stress < 2 else 30, stress)
         nq += len(case["ops"])
         msg = H.run_hist(case, work, drifts.append)
         if msg:
